@@ -161,3 +161,31 @@ def hashseed_pages(seeds=None):
                         "actual": {"file": k, f"seed {refseed}": a[max(0, i - 120):i + 120], f"seed {sd}": b[max(0, i - 120):i + 120]},
                         "expected": "identical pages", "how": "two full runs of the same project with different PYTHONHASHSEED; written pages compared byte for byte"}
     return None
+
+
+def command_line_workers():
+    """the real command line (`python -m ford proj.md`, argparse and all) with graphs saved to a graph_dir: the run with worker processes succeeds and writes the same graph files
+    as the serial run"""
+    import shutil, subprocess, sys, tempfile
+    from harness import loader
+    files = {"src/a.f90": "module a\n  integer :: x\nend module a\nmodule b\n  use a\ncontains\n  subroutine s()\n    call t()\n  end subroutine s\n  subroutine t()\n  end subroutine t\nend module b\n"}
+    listings = {}
+    os.makedirs(realrun.TMPROOT, exist_ok=True)
+    for par in (0, 2):
+        sb = tempfile.mkdtemp(dir=realrun.TMPROOT)
+        try:
+            for k, v in files.items():
+                os.makedirs(os.path.dirname(os.path.join(sb, k)), exist_ok=True)
+                open(os.path.join(sb, k), "w").write(v)
+            open(os.path.join(sb, "proj.md"), "w").write(f"---\nproject: t\nsrc_dir: ./src\noutput_dir: ./doc\ngraph: true\ngraph_dir: ./graphs\nparallel: {par}\npreprocess: false\nsearch: false\n---\ntext\n")
+            env = dict(os.environ, PYTHONPATH=loader.REPO, PYTHONHASHSEED="0")
+            r = subprocess.run([sys.executable, "-m", "ford", "proj.md"], cwd=sb, env=env, capture_output=True, text=True, timeout=600)
+            gd = os.path.join(sb, "graphs")
+            listings[par] = (r.returncode, sorted(os.listdir(gd)) if os.path.isdir(gd) else None, (r.stderr or r.stdout).strip().splitlines()[-1:] if r.returncode else [])
+        finally:
+            shutil.rmtree(sb, ignore_errors=True)
+    if listings[0][0] != 0 or listings[2][0] != 0 or listings[0][1] != listings[2][1] or not listings[0][1]:
+        return {"confirmed": True, "input": {"files": files, "options": "graph: true, graph_dir: ./graphs, parallel: 0 / 2", "command": "python -m ford proj.md"},
+                "actual": {f"parallel: {k}": {"exit": v[0], "graph files": v[1] and len(v[1]), "last line": v[2]} for k, v in listings.items()},
+                "expected": "both runs exit 0 and write the same graph files", "how": "two real command-line runs in fresh processes"}
+    return None
